@@ -720,7 +720,7 @@ func TestC07(t *testing.T) {
 		h.Col.Note("child_requests", len(list))
 	}
 
-	h.Rapid("offenders", h.N(12000, 80000), func(rt *rapid.T) {
+	h.Rapid("offenders", h.N(12000, 300000), func(rt *rapid.T) {
 		c, labels := genC07Case(rt, h.Avoid)
 		var cl []string
 		for l := range labels {
